@@ -23,10 +23,11 @@ I, R = z3.IntSort(), z3.RealSort()
 
 class Ent:
     """guarded term; `sums` are pending symbolic summations (var, lo, hi) that no equality has determined yet"""
-    __slots__ = ("conds", "val", "sums")
+    __slots__ = ("conds", "val", "sums", "zf")
 
-    def __init__(self, conds, val, sums=()):
-        self.conds, self.val, self.sums = list(conds), val, tuple(sums)
+    def __init__(self, conds, val, sums=(), zf=()):
+        # zf: random-probe factors z[row, col] carried symbolically (C17: the expectation operator acts on them)
+        self.conds, self.val, self.sums, self.zf = list(conds), val, tuple(sums), tuple(zf)
 
 
 def resolve_sums(e):
@@ -41,7 +42,7 @@ def resolve_sums(e):
                 ELIMS[0] += 1
                 conds = [_subst(c, var, s) for q, c in enumerate(e.conds) if q != j] + [s >= iterm(lo), s < iterm(hi)]
                 rest = tuple((v, _l, _h) for q, (v, _l, _h) in enumerate(e.sums) if q != k)
-                e = Ent(conds, _subst(e.val, var, s), rest)
+                e = Ent(conds, _subst(e.val, var, s), rest, tuple((_subst(a_, var, s), _subst(b_, var, s)) for a_, b_ in e.zf))
                 changed = True
                 break
     return e
@@ -51,6 +52,8 @@ def ents_expr(ents):
     """the entry as one z3 Real term"""
     t = z3.RealVal(0)
     ents = [resolve_sums(e) for e in ents]
+    if any(e.zf for e in ents):
+        raise Unsupported("random-probe factors left in a deterministic expression")
     if any(e.sums for e in ents):
         raise Unsupported("a symbolic summation is left undetermined (operand without one-hot structure)")
     for e in ents:
@@ -100,18 +103,19 @@ def eliminate(var, lo, hi, ents):
     """sum over var in [lo, hi) of the guarded terms"""
     out = []
     for e in ents:
-        dep = any(_occurs(var, c) for c in e.conds) or _occurs(var, e.val)
+        dep = any(_occurs(var, c) for c in e.conds) or _occurs(var, e.val) or any(_occurs(var, a_) or _occurs(var, b_) for a_, b_ in e.zf)
         if not dep:
-            # constant in var: (hi - lo) copies; only the zero term is supported
-            raise Unsupported("summation of a term that does not depend on the summation index")
+            # constant in var: (hi - lo) equal copies
+            out.append(Ent(e.conds, alg.rmul(z3.ToReal(iterm(hi) - iterm(lo)), e.val), e.sums, e.zf))
+            continue
         sol = solve_for(var, e.conds)
         if sol is None:
-            out.append(resolve_sums(Ent(e.conds, e.val, e.sums + ((var, lo, hi),))))     # stays pending
+            out.append(resolve_sums(Ent(e.conds, e.val, e.sums + ((var, lo, hi),), e.zf)))     # stays pending
             continue
         k, s = sol
         ELIMS[0] += 1
         conds = [_subst(c, var, s) for j, c in enumerate(e.conds) if j != k] + [s >= iterm(lo), s < iterm(hi)]
-        out.append(resolve_sums(Ent(conds, _subst(e.val, var, s), e.sums)))
+        out.append(resolve_sums(Ent(conds, _subst(e.val, var, s), e.sums, tuple((_subst(a_, var, s), _subst(b_, var, s)) for a_, b_ in e.zf))))
     return out
 
 
@@ -298,11 +302,11 @@ class IArr(IdxND):
     def __mul__(self, o):
         if isinstance(o, IArr):
             shape, fa, fb, dt = self._bcast(o)
-            return IArr(shape, lambda *idx: [resolve_sums(Ent(a.conds + b.conds, _mulv(a.val, b.val), a.sums + b.sums)) for a in fa(*idx) for b in fb(*idx)], dt)
+            return IArr(shape, lambda *idx: [resolve_sums(Ent(a.conds + b.conds, _mulv(a.val, b.val), a.sums + b.sums, a.zf + b.zf)) for a in fa(*idx) for b in fb(*idx)], dt)
         s = SScal.lift(o)
         if not s.is_real():
             raise Unsupported("complex scalar in the index domain")
-        return IArr(self.shape, lambda *idx: [Ent(e.conds, _mulv(s.re, e.val), e.sums) for e in self.fn(*idx)], self.dtype)
+        return IArr(self.shape, lambda *idx: [Ent(e.conds, _mulv(s.re, e.val), e.sums, e.zf) for e in self.fn(*idx)], self.dtype)
 
     __rmul__ = __mul__
 
@@ -531,7 +535,7 @@ def _update_array(array, update, *slices):
                 usrc = usrc[len(usrc) - upd.ndim:]
             usrc = [z3.IntVal(0) if SInt.lift(s_).concrete() == 1 else t for t, s_ in zip(usrc, upd.shape)]
             new_terms = upd.fn(*usrc)
-        new = [resolve_sums(Ent(e.conds + inside + eqs, e.val, e.sums + tuple(sums))) for e in new_terms]
+        new = [resolve_sums(Ent(e.conds + inside + eqs, e.val, e.sums + tuple(sums), e.zf)) for e in new_terms]
         # the old value survives where no source position maps to idx
         if sums:
             hit = z3.BoolVal(False)
@@ -540,7 +544,7 @@ def _update_array(array, update, *slices):
             keep = z3.Not(hit)
         else:
             keep = z3.Not(z3.And(*inside)) if inside else z3.BoolVal(False)
-        old = [Ent(e.conds + [keep], e.val, e.sums) for e in array.fn(*idx)]
+        old = [Ent(e.conds + [keep], e.val, e.sums, e.zf) for e in array.fn(*idx)]
         return old + new
     return IArr(array.shape, fn, array.dtype, fresh=True)
 
@@ -585,11 +589,17 @@ def _roll(a, shift, axis):
     ifns.USED.add("roll")
     ax = axis if axis >= 0 else a.ndim + axis
     n = iterm(a.shape[ax])
+    if SInt.lift(shift).concrete() == 0:
+        return a
     sh = iterm(shift)
+    # (i - sh) mod n without a symbolic modulus: valid for |sh| <= n, which must be implied by the path condition
+    if not bool(SBool(z3.And(sh >= -n, sh <= n))):
+        raise Unsupported("roll by more than one period")
 
     def fn(*idx):
         sub = list(idx)
-        sub[ax] = (idx[ax] - sh) % n
+        d = idx[ax] - sh
+        sub[ax] = z3.If(d < 0, d + n, z3.If(d >= n, d - n, d))
         return a.fn(*sub)
     return IArr(a.shape, fn, a.dtype)
 
@@ -707,7 +717,7 @@ def make_abstract_op(label, rows, cols, dtype=np.float64):
         if X.ndim == 2:
             def fn(r, c):
                 v = fresh_idx("j")
-                return eliminate(v, 0, cols, [Ent(e.conds, _mulv(a(r, v), e.val), e.sums) for e in X.fn(v, c)])
+                return eliminate(v, 0, cols, [Ent(e.conds, _mulv(a(r, v), e.val), e.sums, e.zf) for e in X.fn(v, c)])
             return IArr((rows, X.shape[1]), fn, np.promote_types(dtype, X.dtype))
         raise Unsupported("abstract operator applied to a vector")
 
